@@ -141,6 +141,9 @@ class CutplaceApp(object):
         assert cid_path is not None
         new_cid = interface.Cid()
         _log.info('read CID from "%s"', cid_path)
+        with open(cid_path, "rb"):
+            # Fail early with an environment error in case the CID cannot be read at all.
+            pass
         cid_rows = rowio.auto_rows(cid_path)
         new_cid.read(cid_path, cid_rows)
         self.cid = new_cid
@@ -156,6 +159,9 @@ class CutplaceApp(object):
         assert (self.validate_until is None) or (self.validate_until >= 0)
 
         _log.info('validate "%s"', data_path)
+        with open(data_path, "rb"):
+            # Fail early with an environment error in case the data cannot be read at all.
+            pass
 
         try:
             with validio.Reader(self.cid, data_path, validate_until=self.validate_until) as reader:
